@@ -283,6 +283,27 @@ def s_string_ref_class_rebound(rng):
     return {'target': rng.choice([ref, List[ref], Dict[str, ref]])}, hist
 
 
+def s_string_ref_ignorable_first(rng):
+    """A string hint is first asked while its name denotes something ignorable (object / Any), then
+    the name is bound to an ordinary class and the equal string (bare, as a TypeVar bound, inside
+    a container) is asked again: an 'everything passes' verdict must not be remembered."""
+    import typing
+    mod = _scratch()
+    mod.Alias = rng.choice([object, object, typing.Any])
+    ref = 'bearverif.c14_scratch.Alias'
+    shape = rng.choice(['bare', 'bare', 'typevar', 'list', 'dict'])
+    mk = {'bare': lambda r: r, 'typevar': lambda r: typing.TypeVar('TAlias', bound=r), 'list': lambda r: List[r],
+          'dict': lambda r: Dict[str, r]}[shape]
+    first = mk(ref)
+
+    def hist(o):
+        _q(first, 1, 'a', uc.UA(), [1], {'a': 1})
+        if shape != 'bare':
+            _q(ref, 1, uc.UA())
+        mod.Alias = uc.UA
+    return {'target': first if shape != 'typevar' else mk(ref), 'note': f'{shape} over a name rebound from an ignorable referent to a class'}, hist
+
+
 def s_similar_containers(rng):
     fam = rng.sample([List[int], List[bool], Tuple[int, ...], Set[int], Dict[int, int], Optional[List[int]],
                       List[Optional[int]], Tuple[int, int], List[Union[int, str]]], 4)
@@ -366,7 +387,7 @@ def s_conf_lookalikes(rng):
 
 SCRIPTS = [s_grammar_conf_mix, s_conf_lookalikes, s_same_repr, s_union_order, s_literal_lookalike, s_literal_lookalike2, s_annotated_meta, s_class_redefined, s_id_reuse,
            s_clear_caches, s_failing_forward_ref, s_similar_containers, s_failing_hint_first,
-           s_string_ref_rebound, s_string_ref_class_rebound]
+           s_string_ref_rebound, s_string_ref_class_rebound, s_string_ref_ignorable_first]
 
 
 def cases(tier, seed):
@@ -378,6 +399,8 @@ def cases(tier, seed):
             reps = 6 if tier == 'quick' else 40
         elif sc is s_same_repr:
             reps = 16 if tier == 'quick' else 200
+        elif sc is s_string_ref_ignorable_first:
+            reps = 6 if tier == 'quick' else 30
         else:
             reps = 2 if tier == 'quick' else 16
         for k in range(reps):
